@@ -293,12 +293,12 @@ theorem pass_free {d : Char} (hd : d ∈ ['/', '?', '#', '[', ']']) :
 theorem noCtl_user : NoCtl (strOf (normComps puny o hp (g.record po)).user) := by
   intro x hx
   obtain ⟨u, hu, hxu⟩ := user_mem hpc o hp G hx
-  exact noCtl_requote o.quoted _ (G.noCtl_sub (G.username_sub hu)) x hxu
+  exact noCtl_requote_auth o.quoted (G.noCtl_sub (G.username_sub hu)) x hxu
 
 theorem noCtl_pass : NoCtl (strOf (normComps puny o hp (g.record po)).pass) := by
   intro x hx
   obtain ⟨u, hu, hxu⟩ := pass_mem hpc o hp G hx
-  exact noCtl_requote o.quoted _ (G.noCtl_sub (G.password_sub hu)) x hxu
+  exact noCtl_requote_auth o.quoted (G.noCtl_sub (G.password_sub hu)) x hxu
 
 theorem noCtl_host : NoCtl (strOf (normComps puny o hp (g.record po)).host) := by
   intro x hx
